@@ -1325,7 +1325,8 @@ func (t *Topic) broadcastToSessions(msg *ServerComMessage) {
 					}
 
 					// Don't send key presses from one user's session to the other sessions of the same user.
-					if msg.Info.What == "kp" && msg.Info.From == pssd.uid.UserId() {
+					if (msg.Info.What == "kp" || msg.Info.What == "kpa" || msg.Info.What == "kpv") &&
+						msg.Info.From == pssd.uid.UserId() {
 						continue
 					}
 
